@@ -272,4 +272,60 @@ theorem settlePage_inv : ∀ (page : List (Nat × Nat × Nat × Nat)) (s : State
     have := ih _ _ (settleBet_inv hI h1) hr
     exact ⟨this.1, this.2.trans (settleBet_mqueue h1)⟩
 
+/-- one iteration of BatchMarketSettlements for a queued market keeps the invariant: when the last pending bet of
+    the market is gone the book leaves the active state — and by K1 no open bet is left on it -/
+theorem betEndBlockStep_inv {s : State} {mk n : Nat} {r : State × Nat} (hI : SettleInv s) (hmk : mk ∈ s.mqueue)
+    (h : betEndBlockStep s mk n = some r) : SettleInv r.1 := by
+  unfold betEndBlockStep at h
+  simp only [bind, Option.bind_eq_some_iff] at h
+  obtain ⟨r0, h0, h⟩ := h
+  obtain ⟨hI0, hq0⟩ := settlePage_inv _ _ _ hI h0
+  split at h
+  · simp only [pure, Option.some.injEq] at h; rw [← h]; exact hI0
+  · rename_i hany
+    simp only [bind, Option.bind_eq_some_iff, pure, Option.some.injEq] at h
+    obtain ⟨q, hq, s2, h2, rfl⟩ := h
+    unfold bookResolved at h2
+    simp only [bind, Option.bind_eq_some_iff, pure, Option.some.injEq] at h2
+    obtain ⟨b, hb, _, hact, rfl⟩ := h2
+    have hb : getBook r0.1 mk = some b := hb
+    obtain ⟨hbm, hbu⟩ := getBook_mem hb
+    refine SettleInv.replaceBook (s := r0.1) (b := b) (B := { b with status := OB_RESOLVED }) hI0 ?_ rfl rfl rfl rfl ?_ rfl
+      (hI0.sortedParts b hbm) ?_ (by show OB_RESOLVED ≠ OB_ACTIVE; decide) ?_ ?_ rfl rfl rfl
+    · show getBook r0.1 b.uid = some b
+      rw [hbu]; exact hb
+    · intro u hu
+      exact goRemove_sub hq u hu
+    · intro p hp
+      exact ⟨p, hp, rfl, rfl⟩
+    · intro x hx hxm
+      have hxm : x.market = mk := hxm.trans hbu
+      cases hxo : x.isOpen
+      · rfl
+      · exfalso
+        apply hany
+        rw [List.any_eq_true]
+        exact ⟨_, hI0.pendingAll x hx hxo, by simpa using hxm⟩
+    · show ∃ m, getMarket r0.1 b.uid = some m ∧ m.resolved
+      rw [hbu]
+      exact hI0.queueResolved mk (by rw [hq0]; exact hmk)
+
+/-- BatchMarketSettlements keeps the invariant -/
+theorem betEndBlock_inv : ∀ (fuel : Nat) (s : State) (n : Nat) (s' : State),
+    SettleInv s → betEndBlock fuel s n = some s' → SettleInv s' := by
+  intro fuel
+  induction fuel with
+  | zero => intro s n s' hI h; simp [betEndBlock] at h; rw [← h]; exact hI
+  | succ fuel ih =>
+    intro s n s' hI h
+    unfold betEndBlock at h
+    split at h
+    · simp at h; rw [← h]; exact hI
+    · split at h
+      · simp at h; rw [← h]; exact hI
+      · rename_i mk rest hmq
+        simp only [bind, Option.bind_eq_some_iff] at h
+        obtain ⟨r, hr, h⟩ := h
+        exact ih _ _ _ (betEndBlockStep_inv hI (by rw [hmq]; exact List.mem_cons_self ..) hr) h
+
 end Sge.Core
